@@ -37,6 +37,8 @@ def case(draw):
     hyd = "all" if mode == ["--assign-only"] else None
     desc = draw(e2e.structure(missing=(mode not in (["--assign-only"], ["--clean"])), hyd=hyd,
                               wild=draw(st.booleans()), icodes=True))  # fmt: skip
+    if draw(st.integers(0, 4)) == 0:
+        e2e.add_hidden_ends(draw, desc)  # chain end recognisable only by an OXT (every mode, --clean too)
     opts = list(mode)
     for o in ("--keep-chain", "--whitespace", "--drop-water"):
         if draw(st.integers(0, 3)) == 0:
